@@ -72,6 +72,7 @@ std::string ExecImpl::param_text(const MExp& e, int i, bool& negated) const {
     case MK_RALL: return " range is all >= " + v;
     case MK_RNONE: return " range is none == " + v;
     case MK_RANY: return " range is any == " + v;
+    case MK_RNOTIS: negated = true; return " range is {" + v + ", " + std::to_string(e.v[m.vi] + 1) + ", " + v + " }";
   }
   return "?";
 }
@@ -229,6 +230,7 @@ void ExecImpl::op_call(const Op& op) {
     catch (sim_error const& ex) { o.outcome = OC_THREW_USER; o.sval = ex.text; }   // (not derived from std::exception: traced as "unknown")
     catch (std::logic_error const& ex) { o.outcome = OC_THREW_LOGIC; o.sval = ex.what(); }
     catch (int v) { o.outcome = OC_THREW_INT; o.value = v; }
+    catch (char const* cs) { o.outcome = OC_THREW_USER; o.sval = cs ? cs : ""; }   // not a std::exception either
     catch (...) { o.outcome = OC_THREW_OTHER; }
   };
   run_during_unwinding(in_unwinding, attempt);
@@ -355,7 +357,7 @@ void ExecImpl::op_call(const Op& op) {
     if (depth == 1) ctx_rejected_call = true;   // whatever is found changed after this step is C01's business too
     if (!real_rejected) {
       // (reported as a violation and given an OK report at the same time: that is also C16's business)
-      const bool ok_and_report = !o.oks.empty() && !o.reports.empty();
+      const bool ok_and_report = !o.oks.empty();   // an OK report for a call that is not an accepted one: C16's business whatever else happened
       // (reported, but not with severity fatal, so that the reporter returned and the call went on: C15's business too)
       bool soft_report = false;
       for (auto& r : o.reports) if (!r.fatal) soft_report = true;
@@ -412,7 +414,7 @@ void ExecImpl::op_call(const Op& op) {
         fail("C09", "capture_time", std::string(lr ? "LR_ " : "plain ") + "clause " + c.kind + std::to_string(c.k) + " of " + describe_exp(cand) + " saw local = " + std::to_string(c.val) + ", expected " + std::to_string(wantsnap) + " (value at creation " + std::to_string(e.snap0) + ", when the clause ran " + std::to_string(c.msnap) + ")");
         return;
       }
-      if (c.kind == 'S' || (d.rk != RK_THROW_STD && d.rk != RK_THROW_INT && d.rk != RK_LRTHROW_VAR)) {
+      if (c.kind == 'S' || (d.rk != RK_THROW_STD && d.rk != RK_THROW_INT && d.rk != RK_LRTHROW_VAR && d.rk != RK_THROW_CSTR)) {
         const void* wantaddr = (fn == FN_R || fn == FN_K) ? static_cast<const void*>(&argcell) : fn == FN_S ? static_cast<const void*>(&strarg) : fn == FN_U ? static_cast<const void*>(tracked) : fn == FN_V ? static_cast<const void*>(&vecarg) : nullptr;
         if (wantaddr && c.a1 != wantaddr) { fail("C09", "alias", std::string("_1 in clause ") + c.kind + std::to_string(c.k) + " of " + describe_exp(cand) + " does not alias the caller's argument"); return; }
         if (!wantaddr) { if (seen_a1 && c.a1 != seen_a1) { fail("C09", "alias_stable", "_1 has different addresses in different clauses of one call"); return; } seen_a1 = c.a1; }
@@ -469,7 +471,8 @@ void ExecImpl::op_call(const Op& op) {
         break;
       }
       case RK_THROW_STD: wo = OC_THREW_STD; ws = "inst " + std::to_string(cand); break;
-      case RK_LRTHROW_VAR: wo = OC_THREW_USER; ws = "inst " + std::to_string(cand); break;   // a copy of the local: the same text on every call
+      case RK_LRTHROW_VAR: wo = OC_THREW_USER; ws = "inst " + std::to_string(cand); break;
+      case RK_THROW_CSTR: wo = OC_THREW_USER; ws = "a C string"; break;   // a copy of the local: the same text on every call
       case RK_THROW_INT: wo = OC_THREW_INT; wv = cand; break;
     }
     bool ok = o.outcome == wo;
